@@ -373,3 +373,26 @@ theorem cstr_render (isM : Bool) (t p : Nat) :
   exact cstr_append_zeros _ (body_nonzero _ t p (by cases isM <;> decide)) 10
 
 end PttVerif.C13
+
+/-! ### `Filename_t.Eq` on rendered names -/
+namespace PttVerif.C13
+
+/-- creation time and suffix: what follows the two type bytes. -/
+def tail18 (t p : Nat) : List Nat := digitsFixed 10 t ++ [46, 65, 46] ++ hex3 p
+
+theorem body_eq_tail (ty t p : Nat) : body ty t p = [ty, 46] ++ tail18 t p := by
+  simp [body, tail18]
+
+theorem cstr_drop2_render (isM : Bool) (t p : Nat) : cstr ((render isM t p).drop 2) = tail18 t p := by
+  rw [render_zeros, body_eq_tail]
+  have : ([(if isM then 77 else 71), 46] ++ tail18 t p ++ List.replicate 10 0).drop 2
+      = tail18 t p ++ List.replicate 10 0 := by simp
+  rw [this]
+  apply cstr_append_zeros
+  intro c hc
+  exact body_nonzero 77 t p (by decide) c (by rw [body_eq_tail]; simp [hc])
+
+theorem render_of_tail (t p : Nat) : render true t p = copyInto FNLEN ([77, 46] ++ tail18 t p) := by
+  rw [render_body, body_eq_tail]; rfl
+
+end PttVerif.C13
